@@ -24,6 +24,9 @@ REPO = os.environ.get("VERIF_REPO", "/repo")
 sys.path.insert(0, os.path.join(REPO, "src"))
 
 
+LAST_CLS_KEY = None
+
+
 # --------------------------------------------------------------------------------------------- extract
 def extract():
     from dataclasses import fields
@@ -138,6 +141,8 @@ def extract():
     order = []
 
     cls_key = {}
+    global LAST_CLS_KEY
+    LAST_CLS_KEY = cls_key
 
     def tref(tp):
         """key of the definition for class tp (structure types only); two classes that share a
@@ -524,6 +529,15 @@ def emit_lean(layout, ns, outdir):
     out.append("def ccMembers : List (String × Int) := [" + ",\n  ".join(f"({lstr(n)}, {lint(v)})" for n, v in layout["cc"]) + "]")
     for nm, m in layout["maps"].items():
         out.append(f"def map_{nm} : List (Int × Ty) := [" + ",\n  ".join(f"({lint(k)}, T_{ident(v)})" for k, v in m) + "]")
+    def codes(n):
+        return "[" + ", ".join(str(ord(ch)) for ch in n) + "]"
+
+    out.append("/-- `TPM_CC` member names as code points (for the kernel-checked naming rule), with their values -/")
+    out.append("def ccCodes : List (List Nat × Int) := [" + ",\n  ".join(f"({codes(n)}, {lint(v)})" for n, v in layout["cc"]) + "]")
+    for nm, m in layout["maps"].items():
+        out.append(f"/-- keys of map_{nm} with the `__name__` of the mapped class as code points -/")
+        out.append(f"def mapNames_{nm} : List (Int × List Nat) := [" +
+                   ",\n  ".join(f"({lint(k)}, {codes(layout['types'][v]['name'])})" for k, v in m) + "]")
     for side in ("command", "response"):
         out.append(f"def {side}Fields : List (String × String) := [" +
                    ", ".join(f"({lstr(a)}, {lstr(b)})" for a, b in layout[f"{side}_fields"]) + "]")
@@ -556,6 +570,17 @@ def emit_lean(layout, ns, outdir):
         f"sessionsTag := {lint(c['TPM_ST.SESSIONS'])}", f"rcSuccess := {lint(c['TPM_RC.SUCCESS'])}"]) + " }")
     out.append(f"end {ns}")
     files["Cmd.lean"] = "\n".join(out) + "\n"
+
+    # ---- Tables
+    out = [f"import TpmModel.{ns}.Cmd", "import TpmModel.Coherence", f"/-! generated by tools/translate.py — do not edit -/", f"namespace {ns}", ""]
+    out.append("def tables : Tables :=\n  { " + ",\n    ".join([
+        "prims := allPrims", "types := allTypes", "structures := structures", "cc := ccMembers",
+        "cmdHandles := map_command_handles", "cmdParams := map_command_parameters",
+        "rspHandles := map_response_handles", "rspParams := map_response_parameters",
+        "commandFields := commandFields", "responseFields := responseFields", "commandSelectors := commandSelectors",
+        f"sessionsTag := {lint(c['TPM_ST.SESSIONS'])}", f"rcSuccess := {lint(c['TPM_RC.SUCCESS'])}"]) + " }")
+    out.append(f"end {ns}")
+    files["Tables.lean"] = "\n".join(out) + "\n"
 
     # ---- Misc
     misc = layout["misc"]
